@@ -518,24 +518,25 @@ fn vk_ratio_to_float_k_try_f64() {
     cover();
 }
 
-/// kind 'finding' (R4): numerators beyond i32, expected to FAIL (panic in `unwrap`)
+/// numerators beyond i32, denominator 1 (on the original tree `numerator.try_into().unwrap()` panicked here: fixed by
+/// moving the trailing zeros of the numerator into the exponent)
 #[cfg_attr(kani, kani::proof)]
 #[cfg_attr(kani, kani::unwind(20))]
 #[cfg_attr(not(kani), test)]
-fn vk_ratio_to_float_k_finding_try_f32_wide_num() {
+fn vk_ratio_to_float_k_try_f32_wide_num() {
     let n: i64 = any();
     assume(n < i32::MIN as i64 || n > i32::MAX as i64);
-    cover(); // (before the call: it panics for every input of the region)
     vk_rf_check_try_f32(n, 0);
+    cover();
 }
 
-/// kind 'finding' (R4): numerators beyond i64 (|n| < 2^64), expected to FAIL (panic in `unwrap`)
+/// numerators beyond i64 (|n| < 2^64), denominator 1 (same history)
 #[cfg_attr(kani, kani::proof)]
 #[cfg_attr(kani, kani::unwind(20))]
 #[cfg_attr(not(kani), test)]
-fn vk_ratio_to_float_k_finding_try_f64_wide_num() {
+fn vk_ratio_to_float_k_try_f64_wide_num() {
     let n: i128 = any();
     assume(n < i64::MIN as i128 || n > i64::MAX as i128);
-    cover(); // (before the call: it panics for every input of the region)
     vk_rf_check_try_f64(n, 0);
+    cover();
 }
